@@ -28,7 +28,11 @@ use std::{
 };
 
 use libp2p_identity::PeerId;
+#[cfg(not(libp2p_verif))]
 use web_time::Instant;
+
+#[cfg(libp2p_verif)]
+use crate::verif::clock::Instant;
 
 use crate::topic::TopicHash;
 
